@@ -425,7 +425,8 @@ theorem inputTail_cases (k : Kcp) (st : InLoop) (regular ackNoDelay : Bool) (now
     ((inputTail k st regular ackNoDelay now).k = inputK2 k st regular now ∧
       (inputTail k st regular ackNoDelay now).outs = []) ∨
     ∃ full, (inputTail k st regular ackNoDelay now).k = (flush (inputK2 k st regular now) full now).k ∧
-      (inputTail k st regular ackNoDelay now).outs = (flush (inputK2 k st regular now) full now).outs := by
+      (inputTail k st regular ackNoDelay now).outs = (flush (inputK2 k st regular now) full now).outs ∧
+      (inputTail k st regular ackNoDelay now).panic = (flush (inputK2 k st regular now) full now).panic := by
   unfold inputTail
   by_cases h1 : st.panic = true
   · rw [if_pos h1]; left; exact ⟨rfl, rfl⟩
@@ -434,12 +435,12 @@ theorem inputTail_cases (k : Kcp) (st : InLoop) (regular ackNoDelay : Bool) (now
     · rw [if_pos h2]; left; exact ⟨rfl, rfl⟩
     · rw [if_neg h2]
       by_cases h3 : st.flushSeg = true
-      · rw [if_pos h3]; right; right; exact ⟨true, rfl, rfl⟩
+      · rw [if_pos h3]; right; right; exact ⟨true, rfl, rfl, rfl⟩
       · rw [if_neg h3]
         split
-        · right; right; exact ⟨false, rfl, rfl⟩
+        · right; right; exact ⟨false, rfl, rfl, rfl⟩
         · split
-          · right; right; exact ⟨false, rfl, rfl⟩
+          · right; right; exact ⟨false, rfl, rfl, rfl⟩
           · right; left; exact ⟨rfl, rfl⟩
 
 /-! ### conv is never written -/
